@@ -277,7 +277,15 @@ class Backend(ABC):
                     queries.append(result)
 
             error_state = "finalizing query for"
-            # 3. Postprocess generated query if not part of a correlation rule
+            # 3. Postprocess generated query. Correlation rules that refer to this rule embed the
+            # raw query unless the backend requests finalized subqueries; the query that is
+            # returned as output of the rule itself is always finalized.
+            store_finalized = self.finalize_correlation_subqueries or not rule._backreferences
+            if not store_finalized:
+                # Referring correlation rules embed the raw queries. They are made available before
+                # the finalization of the rule's own output is attempted.
+                rule.set_conversion_result(queries)
+                rule.set_conversion_states(states)
             finalized_queries = (
                 [
                     self.finalize_query(
@@ -289,11 +297,12 @@ class Backend(ABC):
                     )
                     for index, query in enumerate(queries)
                 ]
-                if self.finalize_correlation_subqueries or not rule._backreferences
-                else queries
+                if store_finalized or rule._output
+                else []
             )
-            rule.set_conversion_result(finalized_queries)
-            rule.set_conversion_states(states)
+            if store_finalized:
+                rule.set_conversion_result(finalized_queries)
+                rule.set_conversion_states(states)
             if rule._output:
                 return finalized_queries
             else:
